@@ -855,10 +855,9 @@ def oracle_hdr_history(a, ires):
         k = o[0] if o else 9
         if k in HDR_FIELD_POS:
             cur[HDR_FIELD_POS[k]] = o[1]
-        if not others_ok(cur):
-            continue
         what = "path %d, start %s, operations %s" % (kind, l, a[2:2 + n + 1])
         if not range_ok(cur):
+            # the range checks come before anything is encoded: judged whatever version / type / flags are
             if k == 8:
                 r = out_of_range_pack("SpacePacketHeader.pack", what, cur, row)
                 if r is not None:
@@ -868,6 +867,8 @@ def oracle_hdr_history(a, ires):
                     return ("C01/SpacePacketHeader.__init__/range", "%s: a header built from the out-of-range values %s was not refused with ValueError: %s" % (what, cur, row))
             elif row[:7] != cur or row[10:] != [6]:
                 return ("C01/SpacePacketHeader.setters/fields", "%s: object reports %s, the values assigned are %s" % (what, row, cur))
+            continue
+        if not others_ok(cur):
             continue
         if k == 8:
             if row != [0] + layout(*cur):
@@ -922,8 +923,6 @@ def oracle_space_packet(op, a, ires, err, code):
             sec = o[2:] if o[1] else None
         elif k == 31:
             ud = o[2:] if o[1] else None
-        if not others_ok(cur):
-            continue
         what = "start %s, operations %s" % (a[:3], a[4:4 + n + 1])
         if not range_ok(cur):
             # the header is packed first: refused with ValueError whatever the parts are; nothing else changes
@@ -936,6 +935,8 @@ def oracle_space_packet(op, a, ires, err, code):
                     return ("C01/SpacePacketHeader.__init__/range", "%s: a header built from the out-of-range values %s was not refused with ValueError: %s" % (what, cur, row))
             elif row != [cur[3], cur[5], cur[2], cur[6]]:
                 return ("C01/SpacePacket/fields", "%s: packet reports %s, header values %s" % (what, row, cur))
+            continue
+        if not others_ok(cur):
             continue
         if k == 32:
             exp = sp_expected(cur, sec, ud)
